@@ -152,7 +152,7 @@ def direct_fill(p):
         if ce is not None:
             return {"status": "refuted", "ce": ce, "queries": stats["queries"]}
     return {"status": "confirmed" if not inc else "inconclusive", "queries": stats["queries"], "sat": stats["sat"],
-            "unsat": stats["unsat"], "solver_s": round(stats["solver_s"], 2), "paths": stats["cases"],
+            "unsat": stats["unsat"], "solver_s": round(stats["solver_s"], 2), "paths": stats["cases"] + stats["queries"],
             "reached": stats["filled"] + stats["queries"], "programs": len(exprs), "witness_args": exprs[:3]}
 
 
@@ -327,7 +327,7 @@ def direct_wrap(p):
         if ce is not None:
             return {"status": "refuted", "ce": ce, "queries": stats["queries"]}
     return {"status": "confirmed", "queries": stats["queries"], "sat": stats["sat"], "unsat": stats["unsat"],
-            "solver_s": round(stats["solver_s"], 2), "paths": stats["cases"], "reached": stats["filled"] + stats["queries"],
+            "solver_s": round(stats["solver_s"], 2), "paths": stats["cases"] + stats["queries"], "reached": stats["filled"] + stats["queries"],
             "programs": len(specs), "witness_args": [l for _s, l in specs[:3]]}
 
 
